@@ -433,6 +433,12 @@ class Machine:
                 for name, f in self.funcs.items():
                     if "promoted[" in name and c[1].endswith(name):
                         return self.run(f, [])
+                # a promoted constant of a closure / nested item inside an impl method: the use site names the type (Type::method::{closure#0}::promoted[k]),
+                # the dump names the impl block (<impl at file:line>::method::{closure#0}::promoted[k]); match on method path + suffix when unique
+                tail = "::".join(base.split("::")[-2:]) if "{closure" in base.split("::")[-1] else base.split("::")[-1]
+                cands = [f for name, f in self.funcs.items() if name.endswith("::" + tail + "::promoted[" + suffix) or name == tail + "::promoted[" + suffix]
+                if len(cands) == 1:
+                    return self.run(cands[0], [])
                 raise Unsupported("promoted constant " + c[1])
             if "libc::" in c[1] and c[1].rsplit("::", 1)[-1] in LIBC_CONSTS:
                 return LIBC_CONSTS[c[1].rsplit("::", 1)[-1]]
